@@ -5,7 +5,7 @@ cd "$(dirname "$0")"
 mkdir -p build/tools evidence replays
 T=build/tools
 if [ -f bzkit/bzkit.cpp ]; then
-  if [ ! -x $T/bzkit ] || [ bzkit/bzkit.cpp -nt $T/bzkit ] || [ bzkit/bzkit.hpp -nt $T/bzkit ]; then
+  if [ ! -x $T/bzkit ] || [ bzkit/bzkit.cpp -nt $T/bzkit ] || [ bzkit/bzkit.hpp -nt $T/bzkit ] || [ bzkit/bzgen.hpp -nt $T/bzkit ]; then
     g++ -std=gnu++17 -O2 -g -Wall -o $T/bzkit.tmp bzkit/bzkit.cpp && mv $T/bzkit.tmp $T/bzkit
     g++ -std=gnu++17 -O2 -g -Wall -shared -fPIC -DBZKIT_NO_MAIN -o $T/libbzkit.so.tmp bzkit/bzkit.cpp && mv $T/libbzkit.so.tmp $T/libbzkit.so
   fi
